@@ -304,6 +304,89 @@ Definition adapter_r (root : res) (resource : pos) (vroot : option text) : out r
   resource_url_adapter url_vroot_mode root resource vroot.
 Definition py_to_text (z : Z) (l : text) : text := Verif.Lib.C02Expr.py_to z l.
 
+(* ------------------------------------------------------------ elements of any type *)
+(* What quote_path_segment accepts as a segment and the url / path functions as an extra element: a str, a
+   bytes object (decoded as UTF-8), or any other object, of which the code reads str(x) -- [printed] -- and
+   which a dictionary / lru_cache compares by == and hash: [key] names its equality class among the objects
+   of one case (1 == True == 1.0 == Decimal('1.0') share a key and print differently). *)
+Inductive seg := SStr (t : text) | SBytes (b : list N) | SObj (key : N) (printed : text).
+(* s.__class__ in (str, bytes) *)
+Definition seg_plain (s : seg) : bool := match s with SObj _ _ => false | _ => true end.
+(* str(s) for an object that is neither *)
+Definition seg_str (s : seg) : seg := match s with SObj _ p => SStr p | _ => s end.
+(* text_(s, 'utf-8') *)
+Definition seg_text_r (s : seg) : out text :=
+  match s with
+  | SStr t => Val t
+  | SBytes b => match Utf8.decode b with Some t => Val t | None => Err (EExn UnicodeDecodeError) end
+  | SObj _ _ => Err EUnsupported
+  end.
+(* quote_path_segment(segment, safe) for a segment of any type (reference for gen_quote_path_segment_any) *)
+Definition quote_seg (s : seg) (safe : text) : out text :=
+  xlet t := seg_text_r (if seg_plain s then s else seg_str s) in url_quote_r t safe.
+(* _join_path_tuple(tuple) without its cache *)
+Definition join_path_segs (l : list seg) : out text :=
+  match l with
+  | [] => Val slash_text
+  | _ => xlet qs := omap (fun s => quote_seg s path_segment_safe) l in
+         Val (match join slash_text qs with [] => slash_text | s => s end)
+  end.
+Definition resource_path_list_e (names : list text) (els : list seg) : list seg :=
+  map SStr (name_or_default [] :: map name_or_default names) ++ els.
+Definition resource_path_tuple_e (root : res) (r : pos) (els : list seg) : out (list seg) :=
+  xlet names := names_of root r in Val (resource_path_list_e names els).
+Definition resource_path_e (root : res) (r : pos) (els : list seg) : out text :=
+  xlet t := resource_path_tuple_e root r els in join_path_segs t.
+
+(* url._join_elements: the elements are first normalised to what is quoted (str / bytes stay, anything else is
+   printed), then handed to the cached _join_quoted_elements *)
+Definition norm_elements (els : list seg) : list seg := map (fun s => if seg_plain s then s else seg_str s) els.
+Definition join_quoted_elements (els : list seg) : out text :=
+  xlet qs := omap (fun s => quote_seg s c07_elements_safe) els in Val (join c07_elements_sep qs).
+Definition join_elements_e (els : list seg) : out text := join_quoted_elements (norm_elements els).
+
+Definition resource_url_e (m : url_mode) (root : res) (r : pos) (els : list seg) (vroot : option text)
+           (sn : text) (host : option text) : out text :=
+  xlet ru := resource_url_adapter m root r vroot in
+  match host with
+  | None => Err EUnsupported
+  | Some h =>
+      xlet a := application_url h sn in
+      xlet suffix := match els with [] => Val [] | _ => join_elements_e els end in
+      Val (a ++ ru_vp ru ++ suffix)
+  end.
+Definition request_resource_path_e (m : url_mode) (root : res) (r : pos) (els : list seg) (vroot : option text)
+           (sn : text) : out text :=
+  xlet a := if c07_script_quoted then quoted_script_name sn else lift (decode_path_info sn) in
+  xlet ru := resource_url_adapter m root r vroot in
+  xlet suffix := match els with [] => Val [] | _ => join_elements_e els end in
+  Val (a ++ ru_vp ru ++ suffix).
+
+(* equality of two segments AS CACHE KEYS (== and hash) *)
+Definition seg_key_eqb (a b : seg) : bool :=
+  match a, b with
+  | SStr x, SStr y => text_eqb x y
+  | SBytes x, SBytes y => text_eqb x y
+  | SObj k _, SObj k' _ => N.eqb k k'
+  | _, _ => false
+  end.
+Fixpoint segs_key_eqb (a b : list seg) : bool :=
+  match a, b with
+  | [], [] => true
+  | x :: a', y :: b' => seg_key_eqb x y && segs_key_eqb a' b'
+  | _, _ => false
+  end.
+(* A SECOND call resource_path(r, *els2) in a process that has answered resource_path(r, *els1): when
+   _join_path_tuple is lru_cached on the raw tuple ([raw], the regenerated fact c07_join_raw_key) a tuple that
+   is equal AS A KEY to the earlier one is answered from the cache (a call that raised left no entry). *)
+Definition resource_path_second (raw : bool) (root : res) (r : pos) (els1 els2 : list seg) : out text :=
+  xlet names := names_of root r in
+  let t1 := resource_path_list_e names els1 in
+  let t2 := resource_path_list_e names els2 in
+  if raw && segs_key_eqb t2 t1 then
+    match join_path_segs t1 with Val s => Val s | Err _ => join_path_segs t2 end
+  else join_path_segs t2.
+
 (* ------------------------------------------------------------ spec *)
 (* names the property quantifies over: non-empty, no '/', not '.' or '..',
    not starting with '@@' (and text, i.e. Unicode scalar values) *)
@@ -466,6 +549,71 @@ Definition spec_obs (c : case) : list val :=
             | _, _, _, _ => none_val
             end) (c_more c).
 
+(* ---- the typed-element observations (16..22), appended to the sixteen above *)
+Definition put_seg (s : seg) : val :=
+  match s with SStr t => VT t | SBytes b => VL [VI 1; VT b] | SObj k p => VL [VI 2; VT p; vN k] end.
+Definition put_segs (l : list seg) : val := VL [VI 3; VL (map put_seg l)].
+Definition get_seg (v : val) : option seg :=
+  match v with
+  | VL [VI 0; VT t] => Some (SStr t)
+  | VL [VI 1; VT b] => Some (SBytes b)
+  | VL [VI 2; VT p; VI k] => Some (SObj (Z.to_N k) p)
+  | _ => None
+  end.
+
+Definition model_ext (m : url_mode) (raw : bool) (c : case) (e1 e2 : list seg) : list val :=
+  let root := c_tree c in
+  let r := c_r c in
+  [ put_out put_segs (resource_path_tuple_e root r e1);
+    put_out put_text (resource_path_e root r e1);
+    put_out put_text (resource_url_e m root r e1 (c_vroot c) (c_script c) (c_app c));
+    put_out put_text (request_resource_path_e m root r e1 (c_vroot c) (c_script c));
+    put_out put_text (resource_path_second raw root r e1 e2);
+    put_out put_text (resource_url_e m root r e2 (c_vroot c) (c_script c) (c_app c));
+    put_out put_text (request_resource_path_e m root r e2 (c_vroot c) (c_script c)) ].
+
+(* the text an element stands for: a str itself, bytes decoded as UTF-8, anything else printed *)
+Definition seg_text_of (s : seg) : option text :=
+  match s with SStr t => Some t | SBytes b => Utf8.decode b | SObj _ p => Some p end.
+Fixpoint seg_texts (l : list seg) : option (list text) :=
+  match l with
+  | [] => Some []
+  | s :: r => match seg_text_of s, seg_texts r with Some t, Some ts => Some (t :: ts) | _, _ => None end
+  end.
+Definition elts_texts (l : list seg) : option (list text) :=
+  match seg_texts l with
+  | Some ts => if forallb (forallb valid_scalar) ts then Some ts else None
+  | None => None
+  end.
+(* "/" q(n1) "/" ... "/" q(nk) "/" q(e1) ...  ("/" alone for the root without elements) *)
+Definition spec_path_text (names ts : list text) : text := slash :: join [slash] (map q (names ++ ts)).
+
+Definition spec_ext (c : case) (e1 e2 : list seg) : list val :=
+  let root := c_tree c in
+  let r := c_r c in
+  let gr := good_resource root r in
+  let vt := header_segments (c_vroot c) in
+  let vp := match gr, vt with
+            | Some names, Some vt => Some (spec_virtual_path root r names vt)
+            | _, _ => None
+            end in
+  let path e := match gr, elts_texts e with
+                | Some names, Some ts => put_text (spec_path_text names ts)
+                | _, _ => none_val
+                end in
+  let url e := match vp, elts_texts e, c_app c, decode_path_info (c_script c) with
+               | Some v, Some ts, Some host, Ok d =>
+                   put_text (host ++ Percent.quote c07_script_safe (Utf8.encode d) ++ v ++ join [slash] (map q ts))
+               | _, _, _, _ => none_val
+               end in
+  let rpath e := match vp, elts_texts e, decode_path_info (c_script c) with
+                 | Some v, Some ts, Ok d =>
+                     put_text (Percent.quote c07_script_safe (Utf8.encode d) ++ v ++ join [slash] (map q ts))
+                 | _, _, _ => none_val
+                 end in
+  [ match gr with Some names => put_segs (map SStr ([] :: names) ++ e1) | None => none_val end;
+    path e1; url e1; rpath e1; path e2; url e2; rpath e2 ].
+
 Definition get_case (v : val) : option case :=
   match v with
   | VL [t; r; a; rel; VT rel_str; els; vr; VT sn; app; hok; more] =>
@@ -478,5 +626,11 @@ Definition get_case (v : val) : option case :=
   end.
 
 Definition run_C07 (v : val) : val :=
-  ret_or_bad (olet c := get_case v in
-              Some (VL [VL (model_obs url_vroot_mode c); VL (spec_obs c)])).
+  ret_or_bad (match v with
+              | VL [t; r; a; rel; rel_str; els; vr; sn; app; hok; more; e1; e2] =>
+                  olet c := get_case (VL [t; r; a; rel; rel_str; els; vr; sn; app; hok; more]) in
+                  olet e1 := get_list_of get_seg e1 in olet e2 := get_list_of get_seg e2 in
+                  Some (VL [VL (model_obs url_vroot_mode c ++ model_ext url_vroot_mode c07_join_raw_key c e1 e2);
+                            VL (spec_obs c ++ spec_ext c e1 e2)])
+              | _ => None
+              end).
